@@ -2096,14 +2096,23 @@ func (s *swamp) CreateTreasure(key string) treasure.Treasure {
 	s.createMu.Lock()
 	defer s.createMu.Unlock()
 
-	// return with the original treasure if it is existing in the beacon
-	if treasureObj := s.beaconKey.Get(key); treasureObj != nil {
-		return treasureObj
-	}
+	// The order of these two lookups matters. The first Save of an in-flight
+	// treasure adds it to beaconKey and only then removes it from
+	// creatingTreasures, and it does so without holding createMu. Looking at the
+	// tracker first means a miss there is final: either nobody is creating this
+	// key, or the treasure has already reached the beacon, where the second
+	// lookup finds it. The opposite order can miss the treasure in both places
+	// (beacon checked just before that Save, tracker just after it) and create a
+	// second object for the same key, whose writes are then lost in memory.
 
 	// if another goroutine already created an in-flight treasure for this key, reuse it
 	if v, ok := s.creatingTreasures.Load(key); ok {
 		return v.(treasure.Treasure)
+	}
+
+	// return with the original treasure if it is existing in the beacon
+	if treasureObj := s.beaconKey.Get(key); treasureObj != nil {
+		return treasureObj
 	}
 
 	t := treasure.New(s.SaveFunction)
